@@ -32,7 +32,7 @@ def is_double(fr):
 
 
 def _py(v):
-    return v.item() if isinstance(v, np.generic) else v      # (a Fraction built on a NumPy integer would calculate - and wrap - in that integer's type)
+    return v.item() if isinstance(v, (np.generic, np.ndarray)) and np.ndim(v) == 0 else v      # (a Fraction built on a NumPy integer would calculate - and wrap - in that integer's type)
 
 
 def affine_of(s):
@@ -288,7 +288,7 @@ def make_judges(ctx):
 
 
 def floors(tier):
-    return [('route', r) for r in ('constructor', 'call', 'setitem', 'set_val', 'equal', 'like')] + [('read-huge-integer-bias',), ('inference-tolerance',), ('numpy-parameters',), ('object-array-numpy-scalars',)] + [('scaled-target', w_, m_) for w_ in ('out', 'out_like') for m_ in ('raw', 'repr')] + [('carrier', c) for c in ('int8', 'int16', 'int32', 'uint8', 'uint16', 'uint64', 'float32', 'float16', 'Fxp', 'Fxp-scaled', 'int', 'float', 'float64', 'list')] + [('read', 'get_val'), ('read', 'astype'), ('read', '__call__'), ('read', 'element'), ('inferred',), ('resize',), ('raw-then-read',)] + \
+    return [('route', r) for r in ('constructor', 'call', 'setitem', 'set_val', 'equal', 'like')] + [('read-huge-integer-bias',), ('inference-tolerance',), ('numpy-parameters',), ('object-array-numpy-scalars',), ('parameter-by-value',), ('scaled-operand-huge-bias',)] + [('scaled-target', w_, m_) for w_ in ('out', 'out_like') for m_ in ('raw', 'repr')] + [('carrier', c) for c in ('int8', 'int16', 'int32', 'uint8', 'uint16', 'uint64', 'float32', 'float16', 'Fxp', 'Fxp-scaled', 'int', 'float', 'float64', 'list')] + [('read', 'get_val'), ('read', 'astype'), ('read', '__call__'), ('read', 'element'), ('inferred',), ('resize',), ('raw-then-read',)] + \
            [('params', True, False, True), ('params', False, False, True), ('params', True, True, False), ('params', True, False, False), ('params', False, False, False)]
 
 
@@ -610,3 +610,50 @@ def run_case(case, ctx):
                     opn, R.dtype_fxp(True, wa, fa), ca, R.dtype_fxp(True, wb, fb), cb, way, tf[2], scale, bias, r, o, meth, got, exp), key='scaled.target')
             ctx.judged(('scaled-target', opn, way, meth), True, None, elements=3)
             ctx.floor_hit(('scaled-target', way, meth))
+    # a 0-dimensional array given as parameter is taken by value (changing the caller's array later changes nothing), and the value of a scaled
+    # operand enters arithmetic whatever its magnitude: an integer bias of 2^50 / next to 2^63 makes sums and products that leave int64 - they
+    # saturate on their own side
+    if i % 5 == 3:
+        s0, b0 = np.array(float(sc)), np.array(float(bi))
+        xv = _try(lambda: Fxp(inp(vs[0]), s, w, nf, rounding=r, overflow=o, scale=s0, bias=b0))
+        if xv is not None:
+            try:
+                before = (repr(xv.get_val()), repr(xv.upper), repr(xv.lower))
+                s0[()] = float(sc) * 2 + 1
+                b0[()] = float(bi) - 3
+                after = (repr(xv.get_val()), repr(xv.upper), repr(xv.lower))
+            except Exception:
+                before = after = None
+            if before != after:
+                ctx.violation('parameter_shared', 'scale / bias given as 0-dimensional arrays: after the caller changes the arrays the object reads %s (before: %s)' % (after, before), key='scaled.parameter_shared')
+            ctx.judged(('parameter-by-value',), True, None)
+            ctx.floor_hit(('parameter-by-value',))
+        for big_b in (2 ** 50, 2 ** 63 - 15, -(2 ** 62)):
+            for opn in ('mul', 'add', 'sub'):
+                try:
+                    ka, kb = rng.randint(20000, 32767), rng.randint(1, 9)
+                    xa_ = Fxp(ka, True, 16, 0)
+                    yb_ = Fxp(kb + big_b, True, 16, 0, bias=big_b)
+                    order = rng.random() < 0.5
+                    a_, b_ = (xa_, yb_) if order else (yb_, xa_)
+                    z_ = {'mul': lambda: a_ * b_, 'add': lambda: a_ + b_, 'sub': lambda: a_ - b_}[opn]()
+                    va, vb = (ka, kb + big_b) if order else (kb + big_b, ka)
+                    exact = {'mul': va * vb, 'add': va + vb, 'sub': va - vb}[opn]
+                    code = int(np.asarray(z_.val).item())
+                    lo_, hi_ = R.code_range(z_.signed, z_.n_word)
+                    scaled_exact = F(exact) * F(2) ** z_.n_frac
+                except Exception as ex:     # noqa
+                    ctx.violation('scaled_operand_raises', '%s with a scaled operand (integer bias %d) raised %s: %s' % (opn, big_b, type(ex).__name__, str(ex)[:100]), key='scaled.operand_raises')
+                    continue
+                if z_.scaled:
+                    continue
+                if scaled_exact > hi_ and (code != hi_ or not z_.status['overflow'] or z_.status['underflow']):
+                    ctx.violation('scaled_operand_side', '%s of 16-bit operands, one with bias %d: exact result %d is above the range of %s, stored %d, flags %r' % (
+                        opn, big_b, exact, z_.dtype, code, {k_: v_ for k_, v_ in z_.status.items() if k_ != 'extended_prec'}), key='scaled.operand_side')
+                elif scaled_exact < lo_ and (code != lo_ or not z_.status['underflow'] or z_.status['overflow']):
+                    ctx.violation('scaled_operand_side', '%s of 16-bit operands, one with bias %d: exact result %d is below the range of %s, stored %d, flags %r' % (
+                        opn, big_b, exact, z_.dtype, code, {k_: v_ for k_, v_ in z_.status.items() if k_ != 'extended_prec'}), key='scaled.operand_side')
+                elif lo_ <= scaled_exact <= hi_ and scaled_exact.denominator == 1 and code != scaled_exact:
+                    ctx.violation('scaled_operand_value', '%s of 16-bit operands, one with bias %d: exact result %d fits %s, stored code %d' % (opn, big_b, exact, z_.dtype, code), key='scaled.operand_value')
+                ctx.judged(('scaled-operand', opn, order), True, None)
+                ctx.floor_hit(('scaled-operand-huge-bias',))
